@@ -282,6 +282,11 @@ pub fn build(case: &Value) -> Vec<u8> {
                 data.extend_from_slice(b"some future chunk the reader has never heard of");
                 chunk(&mut out, b"XTRA", &data, &next_method());
             }
+            "XTRAMAGIC" => {
+                data.extend_from_slice(&[0x28, 0xb5, 0x2f, 0xfd]);
+                data.extend_from_slice(b" is how this chunk's own data happens to begin");
+                chunk(&mut out, b"XTRA", &data, &next_method());
+            }
             "SSTR" => {
                 u32le(&mut data, 0);
                 u32le(&mut data, sstrs.len() as u32);
@@ -295,7 +300,7 @@ pub fn build(case: &Value) -> Vec<u8> {
                 let ci = ch["class"].as_u64().unwrap() as usize;
                 let c = &classes[ci];
                 let ms = members(ci);
-                u32le(&mut data, c["id"].as_u64().unwrap() as u32);
+                u32le(&mut data, c["id"].as_i64().unwrap() as u32);
                 string(&mut data, c["name"].as_str().unwrap().as_bytes());
                 let service = c["service"].as_bool().unwrap_or(false);
                 data.push(service as u8);
@@ -313,7 +318,7 @@ pub fn build(case: &Value) -> Vec<u8> {
                 let ci = ch["class"].as_u64().unwrap() as usize;
                 let pname = ch["prop"].as_str().unwrap();
                 let ms = members(ci);
-                u32le(&mut data, classes[ci]["id"].as_u64().unwrap() as u32);
+                u32le(&mut data, classes[ci]["id"].as_i64().unwrap() as u32);
                 string(&mut data, pname.as_bytes());
                 if pname == "Name" {
                     data.push(0x01);
@@ -354,13 +359,13 @@ pub fn build(case: &Value) -> Vec<u8> {
             }
             "PROPTRUNC" => {
                 let ci = ch["class"].as_u64().unwrap() as usize;
-                u32le(&mut data, classes[ci]["id"].as_u64().unwrap() as u32);
+                u32le(&mut data, classes[ci]["id"].as_i64().unwrap() as u32);
                 string(&mut data, b"FutureProperty");
                 chunk(&mut out, b"PROP", &data, &next_method());
             }
             "PROPUNK" => {
                 let ci = ch["class"].as_u64().unwrap() as usize;
-                u32le(&mut data, classes[ci]["id"].as_u64().unwrap() as u32);
+                u32le(&mut data, classes[ci]["id"].as_i64().unwrap() as u32);
                 string(&mut data, b"FutureTypedProperty");
                 data.push(0x3f);
                 data.extend_from_slice(&[1, 2, 3, 4, 5, 6, 7]);
